@@ -331,6 +331,10 @@ type c14case struct {
 	Logger  string `json:"logger"` // root | child | default
 	Skip    int    `json:"skip"`
 	SkipVia string `json:"skip_via"` // "" | WithSkip | SetSkip
+	// Prior: something done before the call that the statement says cannot matter.
+	//  sibs       other WithSkip children (different counts) derived from the same parent before and after, all kept alive
+	//  built-off  the adapter / bridge / child is built while caller information is switched off; it is switched on before the call
+	Prior string `json:"prior,omitempty"`
 }
 
 func c14run1(cas c14case) *Violation {
@@ -349,7 +353,7 @@ func c14run1(cas c14case) *Violation {
 		l = slog.New("root")
 	}
 	mk := func(clause, detail string) *Violation {
-		sig := fmt.Sprintf("C14|%s|entry=%s|format=%s|logger=%s|skip=%d(%s)", clause, cas.Entry, cas.Format, cas.Logger, cas.Skip, cas.SkipVia)
+		sig := fmt.Sprintf("C14|%s|entry=%s|format=%s|logger=%s|skip=%d(%s)|prior=%s", clause, cas.Entry, cas.Format, cas.Logger, cas.Skip, cas.SkipVia, cas.Prior)
 		return mkViolation(sig, clause, detail, cas)
 	}
 	conf := func(x slog.Logger) {
@@ -381,8 +385,20 @@ func c14run1(cas c14case) *Violation {
 		if cas.SkipVia == "SetSkip" {
 			l.SetSkip(cas.Skip)
 		} else {
-			l = l.WithSkip(cas.Skip)
+			parent := l
+			var keep []slog.Logger
+			if cas.Prior == "sibs" {
+				keep = append(keep, parent.WithSkip(cas.Skip+1), parent.WithSkip(0))
+			}
+			l = parent.WithSkip(cas.Skip)
 			conf(l)
+			if cas.Prior == "sibs" {
+				keep = append(keep, parent.WithSkip(cas.Skip+2), parent.WithSkip(cas.Skip-1))
+				for _, k := range keep {
+					conf(k)
+				}
+				defer runtime.KeepAlive(keep)
+			}
 		}
 		pan = catch(func() { site = wc.call(l) })
 	} else {
@@ -400,12 +416,23 @@ func c14run1(cas c14case) *Violation {
 			return nil
 		}
 		env := &c14env{l: l, ctx: context.Background(), conf: conf}
+		if cas.Prior == "built-off" {
+			slog.RemoveFlags(slog.Lcaller)
+			if ent.kind == "native" && cas.Logger == "child" {
+				l = slog.New("parent2").New("child2")
+				conf(l)
+				env.l = l
+			}
+		}
 		switch ent.kind {
 		case "adapter":
 			h := slog.NewSlogHandler(l, &slog.HandlerOptions{NoColor: cas.Format != "color", JSON: cas.Format == "json"})
 			env.sl = logslog.New(h)
 		case "bridge":
 			env.std = slog.NewLogLogger(l, slog.InfoLevel)
+		}
+		if cas.Prior == "built-off" {
+			slog.AddFlags(slog.Lcaller)
 		}
 		pan = catch(func() { site = ent.call(env) })
 	}
@@ -513,11 +540,15 @@ func init() {
 			for _, lg := range []string{"root", "child", "default"} {
 				for _, e := range c14entries() {
 					emit(c14case{Entry: e.name, Format: f, Logger: lg})
+					if e.kind == "adapter" || e.kind == "bridge" || c.Thorough() || lg == "child" {
+						emit(c14case{Entry: e.name, Format: f, Logger: lg, Prior: "built-off"})
+					}
 				}
 				for _, wcase := range c14wrappers() {
 					for _, via := range []string{"WithSkip", "SetSkip"} {
 						emit(c14case{Entry: wcase.name, Format: f, Logger: lg, Skip: wcase.n, SkipVia: via})
 					}
+					emit(c14case{Entry: wcase.name, Format: f, Logger: lg, Skip: wcase.n, SkipVia: "WithSkip", Prior: "sibs"})
 				}
 			}
 		}
